@@ -473,7 +473,7 @@ pub fn run(ctx: &Ctx) -> Outcome {
     // tall and wide pages: rows beyond 255 / 256 / 264, columns beyond 255 / 256 (an index kept in 8 bits aliases here)
     let n_tall = {
         let before = sizes.len();
-        sizes.extend([(2u32, 257u32), (1, 264), (3, 300), (257, 3), (300, 2), (2, 2041)]);
+        sizes.extend([(2u32, 257u32), (1, 264), (3, 300), (257, 3), (300, 2), (2, 2041), (2, 2049), (3, 2056), (1, 4100), (2049, 2)]);
         sizes.len() - before
     };
     let ns = sizes.len();
